@@ -4,8 +4,8 @@
 // What is proved here: every call that Advance and updateMatches make on a child searcher, on the
 // heap and on the pool satisfies that callee's precondition (in particular: a child is only ever
 // advanced to a target beyond its own cursor), nothing panics, and the state handed on to
-// updateMatches / Next satisfies the representation invariant. The merge loop of Next (scorer,
-// heap order) is not under contract: its contract below is trusted and listed as such.
+// updateMatches / Next satisfies the representation invariant. Next is proved to the same level (which ids it
+// returns - heap order, min - is not stated); initSearchers is trusted (interior pointers).
 
 package searcher
 
@@ -29,7 +29,9 @@ package searcher
 //@ spec noAlias(a []*SearcherCurr, b []*SearcherCurr) bool = cap(b) == 0 || base(a) != base(b)
 //@ spec rootIn(s *DisjunctionHeapSearcher) bool = implies(len(s.heap) > 0, dhas(s, s.heap[0]))
 //@ spec dhsShape(s *DisjunctionHeapSearcher) bool = ddistinct(s) && heapEntriesOK(s) && rootIn(s) && noAlias(s.heap, s.matchingCurrs)
-//@ spec dhsInv(s *DisjunctionHeapSearcher) bool = dhsShape(s) && parkedOK(s, s.matchingCurrs, len(s.matchingCurrs))
+// the matches handed to the scorer are the current matches of the parked entries
+//@ spec dhsMatch(mt []*search.DocumentMatch, mc []*SearcherCurr) bool = len(mt) == len(mc) && forall(j, 0, len(mc), mt[j] != nil && mt[j] == mc[j].curr)
+//@ spec dhsInv(s *DisjunctionHeapSearcher) bool = dhsShape(s) && parkedOK(s, s.matchingCurrs, len(s.matchingCurrs)) && dhsMatch(s.matching, s.matchingCurrs)
 
 // ---- container/heap on a DisjunctionHeapSearcher (assumed; membership level) ----
 // Pop removes and returns the root: container/heap swaps element 0 to the end, sifts down and calls
@@ -61,6 +63,7 @@ package searcher
 //@   loop 0: invariant parkedOK(s, matchingCurrs, len(matchingCurrs)) && noAlias(s.heap, matchingCurrs)
 //@   loop 0: invariant (base(matching) == old(base(s.matching)) || fresh(matching)) && (base(matchingCurrs) == old(base(s.matchingCurrs)) || fresh(matchingCurrs)) && (base(matchingIdxs) == old(base(s.matchingIdxs)) || fresh(matchingIdxs))
 //@   loop 0: invariant s.heap == old(s.heap) || base(s.heap) == old(base(s.heap))
+//@   loop 0: invariant dhsMatch(matching, matchingCurrs)
 
 // ---- Advance: children behind the target are advanced, then the matches are recomputed ----
 // initSearchers builds the entries as pointers into one block ([]SearcherCurr): interior pointers
@@ -71,24 +74,29 @@ package searcher
 //@   trusted entries are interior pointers &block[i] into a slice of structs (outside the modelled subset)
 //@   requires s != nil && ctx != nil && ctx.DocumentMatchPool != nil && !s.initialized
 //@   modifies fields(DisjunctionHeapSearcher), fields(SearcherCurr), mem(*SearcherCurr), mem(*search.DocumentMatch), mem(int), fields(search.DocumentMatch), search.DocumentMatch.holder, search.Searcher.started, search.Searcher.last, search.Searcher.done, search.DocumentMatchPool.avail
-//@   ensures implies(result == nil, s.initialized && dhsInv(s))
+//@   ensures implies(result == nil, s.initialized && dhsInv(s)) && s.scorer == old(s.scorer) && s.retrieveScoreBreakdown == old(s.retrieveScoreBreakdown)
 //@ func DisjunctionHeapSearcher.Next
-//@   props C08
+//@   props C08 C02
 //@   mode int
-//@   trusted the merge loop of Next (scorer, heap order) is not under contract; Advance relies on this contract
-//@   requires s != nil && ctx != nil && ctx.DocumentMatchPool != nil && implies(s.initialized, dhsInv(s))
+//@   prune
+// (the kNN score-breakdown variant is not covered; which ids are returned - heap order, min - is not stated here)
+//@   requires s != nil && ctx != nil && ctx.DocumentMatchPool != nil && implies(s.initialized, dhsInv(s)) && s.scorer != nil && !s.retrieveScoreBreakdown
 //@   modifies fields(DisjunctionHeapSearcher), fields(SearcherCurr), mem(*SearcherCurr), mem(*search.DocumentMatch), mem(int), fields(search.DocumentMatch), search.DocumentMatch.holder, search.Searcher.started, search.Searcher.last, search.Searcher.done, search.DocumentMatchPool.avail
+//@   at call matchingCurr.searcher.Next#0 after: ghost result0.holder = matchingCurr
 //@   ensures implies(result1 == nil, s.initialized && dhsInv(s))
+//@   loop 0: invariant s.initialized && dhsInv(s) && ctx.DocumentMatchPool != nil && s.scorer != nil && !s.retrieveScoreBreakdown
+//@   loop 1: invariant dhsShape(s) && ctx.DocumentMatchPool != nil && s.initialized && s.scorer != nil && !s.retrieveScoreBreakdown
+//@   loop 1: invariant forall(k, iter, len(s.matchingCurrs), entryOK(s.matchingCurrs[k]) && !dhas(s, s.matchingCurrs[k])) && forall(p, iter, len(s.matchingCurrs), forall(q, p+1, len(s.matchingCurrs), s.matchingCurrs[p] != s.matchingCurrs[q]))
 
 //@ func DisjunctionHeapSearcher.Advance
 //@   props C08 C02
 //@   mode int
-//@   requires s != nil && ctx != nil && ctx.DocumentMatchPool != nil && implies(s.initialized, dhsInv(s))
+//@   requires s != nil && ctx != nil && ctx.DocumentMatchPool != nil && implies(s.initialized, dhsInv(s)) && s.scorer != nil && !s.retrieveScoreBreakdown
 //@   modifies fields(DisjunctionHeapSearcher), fields(SearcherCurr), mem(*SearcherCurr), mem(*search.DocumentMatch), mem(int), fields(search.DocumentMatch), search.DocumentMatch.holder, search.Searcher.started, search.Searcher.last, search.Searcher.done, search.DocumentMatchPool.avail
 //@   at call searcherCurr.searcher.Advance#0 after: ghost result0.holder = searcherCurr
 //@   ensures implies(result1 == nil, s.initialized && dhsInv(s))
-//@   loop 0: invariant dhsShape(s) && ctx.DocumentMatchPool != nil
+//@   loop 0: invariant dhsShape(s) && ctx.DocumentMatchPool != nil && s.scorer != nil && !s.retrieveScoreBreakdown
 //@   loop 0: invariant forall(k, iter, len(s.matchingCurrs), entryOK(s.matchingCurrs[k]) && !dhas(s, s.matchingCurrs[k])) && forall(p, iter, len(s.matchingCurrs), forall(q, p+1, len(s.matchingCurrs), s.matchingCurrs[p] != s.matchingCurrs[q]))
-//@   loop 1: invariant dhsShape(s) && ctx.DocumentMatchPool != nil && parkedOK(s, s.matchingCurrs, len(s.matchingCurrs))
-//@   loop 2: invariant dhsShape(s) && ctx.DocumentMatchPool != nil
+//@   loop 1: invariant s.scorer != nil && !s.retrieveScoreBreakdown && dhsShape(s) && ctx.DocumentMatchPool != nil && parkedOK(s, s.matchingCurrs, len(s.matchingCurrs))
+//@   loop 2: invariant dhsShape(s) && ctx.DocumentMatchPool != nil && s.scorer != nil && !s.retrieveScoreBreakdown
 //@   loop 2: invariant forall(k, iter, len(s.matchingCurrs), entryOK(s.matchingCurrs[k]) && !dhas(s, s.matchingCurrs[k])) && forall(p, iter, len(s.matchingCurrs), forall(q, p+1, len(s.matchingCurrs), s.matchingCurrs[p] != s.matchingCurrs[q]))
